@@ -106,7 +106,7 @@ def run(ctx):
     tally_from(T, "url_validate.py", [], "model-vs-impl(url,proxy)", "parse_url/_is_no_proxy_host/get_proxy_info", "C19_exempt, C19_decision")
     # 4. the CONNECT tunnel: first bytes, credentials, status gate, then TLS (wss) and the WebSocket handshake to the origin
     for url in ("ws://origin.test:8080/r", "wss://origin.test/s", "ws://origin.test/"):
-        for auth in (None, ("user", "pw"), ("user", None), ("u:x", "p@ss")):
+        for auth in (None, ("user", "pw"), ("user", None), ("u:x", "p@ss"), ("svc-websocket@example.org", "t" * 64)):    # the last one exceeds one base64 line
             for status in (200, 201, 100, 301, 403, 407, 500):
                 sc = {"url": url, "auth": auth, "status": status}
                 res, written, resolved, wrapped = tunnel_run(sc)
